@@ -7,6 +7,7 @@ a set's iteration order or an object id.
 from __future__ import annotations
 
 import dataclasses
+import copy
 import random
 
 from . import core
@@ -481,6 +482,28 @@ def gen_world(rng, cfg: Cfg, *, force_recursive=False, nmods=None) -> tuple[dict
             s = gen_struct(rng, view, cfg, fresh("D"), depth=2, future=mod["future"])
             mod["decls"].append(s)
             view.add(mname, s, "struct")
+        bases = [d for d in mod["decls"] if d["d"] == "dataclass" and not d.get("base")]
+        if bases and rng.random() < 0.3:
+            # single inheritance: a dataclass that adds defaulted fields to one declared earlier in the
+            # module (the class body holds only its own fields; `fields` lists all of them, inherited first)
+            b = rng.choice(bases)
+            taken = {f["n"] for f in b["fields"]}
+            own = []
+            for nm_ in [n_ for n_ in FIELD_NAMES + ["extra", "note"] if n_ not in taken][: rng.randint(1, 2)]:
+                tk = rng.choice(["int", "str", "bool", "optint"])
+                if tk == "optint":
+                    own.append({"n": nm_, "t": {"k": "union", "sp": "optional", "a": [{"k": "int"}, {"k": "none"}]}, "default": None})
+                else:
+                    own.append({"n": nm_, "t": {"k": tk}, "default": {"int": 3, "str": "own", "bool": True}[tk]})
+            flags = {}
+            if b.get("flags", {}).get("frozen"):
+                flags["frozen"] = True
+            if b.get("flags", {}).get("kw_only") and rng.random() < 0.5:
+                flags["kw_only"] = True
+            s = {"d": "dataclass", "n": fresh("D"), "fields": copy.deepcopy(b["fields"]) + own, "own_from": len(b["fields"]), "base": b["n"], "flags": flags}
+            if s["n"] != b["n"]:
+                mod["decls"].append(s)
+                view.add(mname, s, "struct")
         if cfg.wrappers:
             for _ in range(rng.randint(0, 2)):
                 counters["W"] += 1
